@@ -430,7 +430,7 @@ theorem stream_len_le (a b : List Cmd) : (stream b).length ≤ (stream (a ++ b))
 theorem onRead_wf (cfg : Config) (h14 : cfg.headerLen = 14) (hcodec : cfg.codec = codec1) (hdepth : 1 ≤ cfg.env.depth)
     (cmds : List Cmd) (b0 chunk rest : Bytes) (tx : Bool)
     (h : (b0 ++ chunk) ++ rest = stream cmds) (hs : Small (stream cmds))
-    (hmax : (stream cmds).length ≤ cfg.maxBuffer) (hok : ∀ c ∈ cmds, CmdOK cfg.env c) :
+    (hmx0 : b0.length + chunk.length ≤ cfg.maxBuffer) (hok : ∀ c ∈ cmds, CmdOK cfg.env c) :
     ∃ (done left : List Cmd) (buf' : Bytes) (tx' : Bool),
       cmds = done ++ left ∧ buf' ++ rest = stream left ∧
       (∀ c cs, left = c :: cs → buf'.length < (encCmd c).length) ∧
@@ -441,8 +441,7 @@ theorem onRead_wf (cfg : Config) (h14 : cfg.headerLen = 14) (hcodec : cfg.codec 
     seqLoop_wf cfg h14 hcodec hdepth cmds ((b0 ++ chunk).length + 1) (b0 ++ chunk) rest tx h (by omega) hs hok
   refine ⟨done, left, buf', tx', e1, e3, e4, ?_⟩
   unfold onRead
-  have hmx : ¬ (b0.length + chunk.length > cfg.maxBuffer) := by
-    simp at hlen; omega
+  have hmx : ¬ (b0.length + chunk.length > cfg.maxBuffer) := by omega
   simp only [Bool.false_eq_true, if_false, hmx]
   have hg := collectGet_dead cfg.checked ((b0 ++ chunk).length + 1) (b0 ++ chunk) rest cmds h
   have hsd := collectSet_dead cfg.checked ((b0 ++ chunk).length + 1) (b0 ++ chunk) rest cmds h
@@ -487,7 +486,8 @@ theorem reads_wf (cfg : Config) (h14 : cfg.headerLen = 14) (hcodec : cfg.codec =
     intro cmds b0 tx acts h hs hmax hok _
     simp only [List.flatten_cons] at h
     obtain ⟨done, left, buf', tx', e1, e3, e4, e5⟩ :=
-      onRead_wf cfg h14 hcodec hdepth cmds b0 ch chunks.flatten tx (by simpa using h) hs hmax hok
+      onRead_wf cfg h14 hcodec hdepth cmds b0 ch chunks.flatten tx (by simpa using h) hs
+        (by have := congrArg List.length h; simp at this; omega) hok
     simp only [List.foldl_cons, e5]
     have hsl : Small (stream left) := by
       have := stream_len_le done left
@@ -531,6 +531,97 @@ theorem run_wf (cfg : Config) (h14 : cfg.headerLen = 14) (hcodec : cfg.codec = c
   unfold run feedSegs St.init
   have := reads_wf cfg h14 hcodec hdepth (segs.flatMap (fun s => splitReads cfg.readSize s.length s)) cmds [] false []
     (by simp [flatMap_splitReads_flatten, h]) hs hmax hok
+    (by intro c cs _; have := encCmd_len_pos c; simp; omega)
+  simpa using this
+
+/-! ### the overflow guard: frames that leave `read_size - 1` bytes of room never trip it -/
+
+theorem splitReads_len (n : Nat) (hn : 1 ≤ n) : ∀ (f : Nat) (seg : Bytes), seg.length ≤ f →
+    ∀ ch ∈ splitReads n f seg, ch.length ≤ n := by
+  intro f
+  induction f with
+  | zero => intro seg h ch hc; simp [splitReads] at hc; subst hc; omega
+  | succ f ih =>
+    intro seg h ch hc
+    unfold splitReads at hc
+    split at hc
+    · rename_i hle
+      simp at hc
+      subst hc
+      omega
+    · rename_i hle
+      simp at hc
+      cases hc with
+      | inl e => subst e; simp; omega
+      | inr e => exact ih (seg.drop n) (by simp; omega) ch e
+
+/-- every `read()` of every segmentation, when every frame leaves `read_size - 1` bytes of room
+    below `max_buffer_size` (the stream itself may be arbitrarily long) -/
+theorem reads_wf_frames (cfg : Config) (h14 : cfg.headerLen = 14) (hcodec : cfg.codec = codec1) (hdepth : 1 ≤ cfg.env.depth) :
+    ∀ (chunks : List Bytes) (cmds : List Cmd) (b0 : Bytes) (tx : Bool) (acts : List Action),
+      b0 ++ chunks.flatten = stream cmds → Small (stream cmds) →
+      (∀ c ∈ cmds, (encCmd c).length + cfg.readSize ≤ cfg.maxBuffer + 1) →
+      (∀ ch ∈ chunks, ch.length ≤ cfg.readSize) →
+      (∀ c ∈ cmds, CmdOK cfg.env c) →
+      (∀ c cs, cmds = c :: cs → b0.length < (encCmd c).length) →
+      (chunks.foldl (fun (acc : St × List Action) c =>
+          let (s', a) := onRead cfg acc.1 c; (s', acc.2 ++ a)) (⟨b0, tx, false⟩, acts)).2
+        = acts ++ execAll cmds := by
+  intro chunks
+  induction chunks with
+  | nil =>
+    intro cmds b0 tx acts h _ _ _ _ hb
+    simp at h
+    cases cmds with
+    | nil => simp [execAll]
+    | cons c cs =>
+      have := hb c cs rfl
+      rw [h, stream_cons] at this
+      simp at this
+      omega
+  | cons ch chunks ih =>
+    intro cmds b0 tx acts h hs hfr hch hok hb
+    simp only [List.flatten_cons] at h
+    have hmx : b0.length + ch.length ≤ cfg.maxBuffer := by
+      cases cmds with
+      | nil =>
+        simp [stream] at h
+        rw [h.1, h.2.1]; simp
+      | cons c cs =>
+        have h1 := hb c cs rfl
+        have h2 := hfr c (by simp)
+        have h3 := hch ch (by simp)
+        omega
+    obtain ⟨done, left, buf', tx', e1, e3, e4, e5⟩ :=
+      onRead_wf cfg h14 hcodec hdepth cmds b0 ch chunks.flatten tx (by simpa using h) hs hmx hok
+    simp only [List.foldl_cons, e5]
+    have hsl : Small (stream left) := by
+      have := stream_len_le done left
+      unfold Small at *
+      rw [← e1] at this
+      omega
+    rw [ih left buf' tx' (acts ++ execAll done) e3 hsl
+      (fun c hc => hfr c (by rw [e1]; simp [hc])) (fun x hx => hch x (by simp [hx]))
+      (fun c hc => hok c (by rw [e1]; simp [hc])) e4]
+    rw [e1]
+    simp [execAll]
+
+/-- NO OVERFLOW BELOW THE LIMIT: a pipeline of any length whose every frame satisfies
+    `|frame| + read_size ≤ max_buffer_size + 1` is executed completely, for every segmentation -/
+theorem run_wf_frames (cfg : Config) (h14 : cfg.headerLen = 14) (hcodec : cfg.codec = codec1) (hdepth : 1 ≤ cfg.env.depth)
+    (hrs : 1 ≤ cfg.readSize)
+    (cmds : List Cmd) (segs : List Bytes) (h : segs.flatten = stream cmds)
+    (hs : Small (stream cmds)) (hfr : ∀ c ∈ cmds, (encCmd c).length + cfg.readSize ≤ cfg.maxBuffer + 1)
+    (hok : ∀ c ∈ cmds, CmdOK cfg.env c) :
+    run cfg segs = execAll cmds := by
+  unfold run feedSegs St.init
+  have hch : ∀ ch ∈ segs.flatMap (fun s => splitReads cfg.readSize s.length s), ch.length ≤ cfg.readSize := by
+    intro ch hc
+    simp only [List.mem_flatMap] at hc
+    obtain ⟨s, _, hcs⟩ := hc
+    exact splitReads_len cfg.readSize hrs s.length s (Nat.le_refl _) ch hcs
+  have := reads_wf_frames cfg h14 hcodec hdepth (segs.flatMap (fun s => splitReads cfg.readSize s.length s)) cmds [] false []
+    (by simp [flatMap_splitReads_flatten, h]) hs hfr hch hok
     (by intro c cs _; have := encCmd_len_pos c; simp; omega)
   simpa using this
 
